@@ -131,7 +131,37 @@ def run_total(pid, tier, seed):
     return res
 
 
+VALUES_ONLY = {"C05": "int", "C06": "str", "C12": "decode,int", "C13": "tok", "C17": "san", "C16": "str,san,int,tok,decode"}
+
+
+def run_values(pid, tier, seed):
+    vh = vlib.build_harness()
+    r1 = []
+    states_path, c, states = vlib.emit_states()
+    r1.append(c)
+    for mod, cfg in VALUES_R1.get(pid, []):
+        if os.path.exists(os.path.join(vlib.SPEC, cfg)):
+            r1.append(vlib.model_check(mod, cfg))
+    g = vlib.run_gen(vh, "values", tier, seed, states=states_path, only=VALUES_ONLY.get(pid))
+    res = {"r1": r1, "gens": [g]}
+    if "hang" in g:
+        res["hang"] = g["hang"]
+        return res
+    bads, consumed, notes = vlib.validate("TraceValues.tla", "TraceValues.cfg", g["files"])
+    res.update(bads=bads, consumed=consumed, notes=notes)
+    return res
+
+
+VALUES_R1 = {
+    "C05": [("MC_Ints.tla", "MC_Ints.cfg")],
+    "C06": [("MC_Strings.tla", "MC_Strings.cfg")],
+    "C12": [("MC_Decode.tla", "MC_Decode.cfg")],
+    "C13": [("MC_Tokens.tla", "MC_Tokens.cfg")],
+    "C17": [("MC_Utf8.tla", "MC_Utf8.cfg")],
+}
+
 FAMILIES = {
+    "values": {"run": run_values},
     "parse": {"run": run_parse},
     "handlers": {"run": run_handlers},
     "total": {"run": run_total},
@@ -201,6 +231,59 @@ CHECKS.update({
                           "handler answers, with TLC checking 'normal return, nil error => offset in range, unusable answer => error'.",
             "level_note": "sampled: 'never' over all inputs is established only on the explored ones; panics observed via recover(), "
                           "non-termination via a 60 s no-progress watchdog"},
+})
+
+CHECKS.update({
+    "C05": {"family": "values", "level": "model_checking",
+            "rule": "digit strings: every value within +-40 (thorough +-300) of 2^7..2^64, 10^9..10^21, 2^64/10, with and without sign, "
+                    "followed by 17 (thorough: all 256) next bytes; 1..24-digit 1/9/10^n ladders; special forms; random digit strings; "
+                    "each through 6 readers and 6 Decode forms; distinct = distinct input; non-trivial = longer than one byte",
+            "technique": "TLA+ digit-sequence spec of integer tokens and ranges (R1 exhaustive on scaled-down types) + TLC validation of recorded reads (R3)",
+            "level_text": "IntRead is defined over digit sequences in TLA+ and model-checked exhaustively against integer arithmetic on "
+                          "8-bit types; every recorded call of the twelve integer entry points is recomputed by TLC (success, exact "
+                          "value as digits, sign, end offset).",
+            "level_note": MC_NOTE + "; the harness prints returned integers with strconv (trusted printing)"},
+    "C06": {"family": "values", "level": "model_checking",
+            "rule": "string inputs: (top-level string states of the TLA+ machine x all 256 bytes x stop/completion), \\u sweep over the 65536 "
+                    "code units (quick: one per 16 + boundaries), surrogate grid, pairs broken by every byte at every position, every byte at "
+                    "every position of templates, growth-boundary lengths x destination slack, random strings and mutations; each through "
+                    "ReadString (nil/dirty/tiny scratch), ReadStringBytes (nil/prefixed destination), DecodeString, and UnescapeStringContent "
+                    "on the bytes between the quotes",
+            "technique": "TLA+ spec of string tokens and escape decoding (R1 on class strings) + TLC validation of recorded string reads byte for byte (R3)",
+            "level_text": "Well-formedness, end offset and decoded bytes are recomputed by TLC from Strings.tla for every recorded call, "
+                          "without any U+FFFD sanitising; the string states of the grammar machine are swept with all 256 bytes.",
+            "level_note": MC_NOTE},
+    "C12": {"family": "values", "level": "model_checking",
+            "rule": "9 Decode functions x (fixed zoo of null forms, literals, numbers at type bounds, strings; every one-byte corruption of "
+                    "null; random scalar documents and mutations) x 2 distinctive prior target values each",
+            "technique": "TLA+ DecodeSpec (reader outcome x null x prior target, R1 exhaustive) + TLC validation of recorded Decode calls against the recorded reader outcome (R3)",
+            "level_text": "DecodeSpec is a function of the corresponding reader's outcome, the input and the prior target; TLC checks every "
+                          "recorded call (two different non-zero priors per input, so a write of any constant is seen).",
+            "level_note": MC_NOTE + "; the reader outcome used in the clause is the recorded outcome of the real reader on the same input (its correctness is C04/C05/C06/C13)"},
+    "C13": {"family": "values", "level": "model_checking",
+            "rule": "every byte value after every whitespace prefix of length <= 3 over the four whitespace bytes (85 x 257, exhaustive); "
+                    "every one-byte corruption (256 values at each position), truncation and following byte of true/false/null with 4 "
+                    "whitespace prefixes; first-token zoo; random documents; 13 typed readers observed on every input",
+            "technique": "TLA+ token table and literal acceptors + exhaustive byte x whitespace-prefix sweep validated by TLC (R3)",
+            "level_text": "The token table, whitespace set and literal acceptors are TLA+ definitions; the enumerated input sets are "
+                          "complete for the stated shapes and every recorded result is recomputed by TLC; type exclusivity is asserted "
+                          "over 13 typed readers on every input.",
+            "level_note": MC_NOTE},
+    "C16": {"family": "values", "level": "exploration",
+            "rule": "every event of the values family carries an input-unchanged bit (private copy compared after the calls); string "
+                    "readers and UnescapeStringContent and StdLibCompatibleStringBytes with prefixed destinations over growth-boundary "
+                    "slack; dirty and tiny scratch buffers; results re-read after the harness overwrites input and scratch",
+            "technique": "TLA+ append/ownership clauses (dst o Produce(in)); recorded results before and after overwrites validated by TLC (R3)",
+            "level_text": "Memory ownership cannot be enumerated; the clauses (input unchanged, result = destination prefix followed by "
+                          "the specified bytes, result unchanged after later overwrites) are evaluated by TLC on every recorded call.",
+            "level_note": "sampled shapes of (len, cap, contents); aliasing destinations are outside the quantifier; value trees are covered by the C15/C03 events"},
+    "C17": {"family": "values", "level": "model_checking",
+            "rule": "all 1- and 2-byte sequences (65792, exhaustive), all 3-byte (thorough: and 4-byte) sequences over the 28 UTF-8 boundary "
+                    "bytes, random longer sequences, damaged valid strings; StdLibCompatibleStringBytes with destination shapes",
+            "technique": "TLA+ Utf8Sanitize (Unicode table 3-7; R1: idempotent, identity on valid) + TLC validation of recorded helper outputs (R3)",
+            "level_text": "Utf8Sanitize is defined from the Unicode well-formedness table and model-checked for idempotence and identity on "
+                          "valid input over all boundary-byte sequences <= 4; recorded outputs of the helpers are compared byte for byte.",
+            "level_note": MC_NOTE + "; all 3-byte sequences are covered through boundary bytes, not literally; the slice/map helpers are checked on C03's trees"},
 })
 
 NOT_APPLICABLE = {}
